@@ -443,8 +443,9 @@ def run(ctx):
     ctx.prove()
     correspond(ctx, gen_ok)
     param_kinds(ctx)
-    from .. import c01_oracle
+    from .. import c01_oracle, c01_api
     c01_oracle.run(ctx)
+    c01_api.run(ctx)
 
 
 def replay(ctx, data):
